@@ -1,7 +1,6 @@
 CONSTANTS
-  MaxToks = 2
-  Big = FALSE
-  NRand = 2500
-  Seed = 1
+  MaxToks = 3
+  Big = TRUE
+  NRand = 60000
 SPECIFICATION Spec
 INVARIANTS WF ImplIsRef NoSpoofInv RightMostInv ResultShapeInv
